@@ -189,7 +189,7 @@ PROBE_NAMES = sorted(PROBES)
 RELATED = {
     "knobs": ["solver_trace", "plain", "surface_dl", "gas_ss"], "print": ["plain", "selout_defaults", "warnings", "transport_dumpfile"],
     "selout": ["selout_defaults", "plain", "leftover_use", "basic_memory"], "basic": ["basic_memory", "leftover_calc", "leftover_rate", "kinetics"],
-    "transport": ["transport_min", "transport_bare", "transport_diff", "transport_dumpfile", "advection_min", "leftover_cells", "kinetics"],
+    "transport": ["transport_min", "transport_bare", "transport_diff", "transport_dumpfile", "transport_bare", "transport_min", "advection_min"],
     "advection": ["advection_min", "advection_bare", "transport_bare"], "incr": ["reaction_steps", "kinetics", "solver_trace"],
     "kinetics": ["kinetics", "leftover_rate", "basic_memory"], "model": ["brine", "plain", "temp_press"],
     "isotopes": ["isotopes", "isotope_option", "plain"], "entities": ["leftover_use", "leftover_cells", "dump_all", "mix_copy"],
